@@ -1,4 +1,5 @@
 import XV.Lemmas.Repost
+import XV.Lemmas.WalkSkip
 import XV.Props.C02
 import XV.Lemmas.UndoKeys
 import XV.Lemmas.UndoObs
@@ -1852,6 +1853,27 @@ theorem walk_as_found_readmits_confirmed :
   revert hnd
   decide
 
+/-- **the repaired code (the skip list the ledger supplies): the same walk keeps the invariant.** On the witness, with the
+list `[1]` supplied for the walk (transaction 1 is recorded in block 12, which is on the chain walked to —
+`isConfirmedOnCurrentChain`), transaction 1 is not re-submitted: the walk succeeds, the pool ends empty, and the state is
+explained by the log `[100, 8, 1]` of the chain walked to — `Ledger` and `ChainLog` hold, in particular
+`(C ++ pool).Nodup`. (`XV.C02.walk_Ledger_withSkip`; the invariant is stated in the environment of the history, the walk
+runs in that environment with its skip list.) -/
+theorem walk_repaired_skips_confirmed :
+    (∀ i ∈ nhS.pool, i ∈ [100, 8, 1] → i ∈ [1]) ∧ repostList (nhEnv.withSkip [1]) nhS = [] ∧
+    (walk (nhEnv.withSkip [1]) nhS 0 12 false).2 = true ∧ (walk (nhEnv.withSkip [1]) nhS 0 12 false).1.pool = [] ∧
+    (walk (nhEnv.withSkip [1]) nhS 0 12 false).1.pointer = 12 ∧
+    Ledger nhEnv (walk (nhEnv.withSkip [1]) nhS 0 12 false).1 [100, 8, 1] ∧
+    ChainLog nhEnv (walk (nhEnv.withSkip [1]) nhS 0 12 false).1 [100, 8, 1] ∧
+    ([100, 8, 1] ++ (walk (nhEnv.withSkip [1]) nhS 0 12 false).1.pool).Nodup := by
+  have g : Ledger nhEnv (walk (nhEnv.withSkip [1]) nhS 0 12 false).1 [100, 8, 1] := by
+    obtain ⟨C', c1, c2⟩ := XV.C02.walk_Ledger_withSkip nhEnv [1] nhS 0 12 false [100, 9] [100] nhS_Ledger (by decide)
+      (by decide) (by decide) (by decide)
+    have hC : C' = [100, 8, 1] := (c2 (by decide)).trans (by decide)
+    rw [hC] at c1
+    exact c1
+  exact ⟨by decide, by decide, by decide, by decide, by decide, g, by decide, by decide⟩
+
 -- ================================================================== the chain-shape invariant in every outcome of a walk
 
 /-- undoing the block at the pointer takes its transactions off the log: the path of the parent is the path without it
@@ -1950,23 +1972,16 @@ theorem todoAll_LedgerChain (e : Env) (lh : Int) (hpl : ParentLower e) (dest : N
           path_prefix e hpl dest bi (P ++ done) rest (by rw [hpath, hT, List.append_assoc]), List.append_assoc]
       exact ih (done ++ [bi]) st' (by rw [hT, List.append_assoc]; rfl) t1 t2 hc'
 
-/-- **`walk` keeps the pair (`Ledger`, `ChainLog`) in EVERY outcome** — success, an undo refused at the irreversible
-height, a block of the new branch that fails admission. In the two failing outcomes the node stays at an intermediate
-block (on the old branch above the fork point, at the fork point, or part of the way up the new branch) with an empty
-pool, and the log that explains its tables is the log of the path of that block. On success the log is that of the
-destination's path. Hypotheses as for `walk_Ledger_chain`, with two changes: the blocks to apply are known to the
-environment under their ids (`hids`; it replaces `(e.block dest).id = dest`, and is what puts the pointer where the log
-says after each applied block), and the path of the initial pointer `0` carries no transaction (`hgen`, see
-`ChainLog_genesis`; used when a root block is undone). -/
-theorem walk_Ledger_chain_full (e : Env) (s : St) (lh : Int) (dest : Nat) (prune : Bool) (C : List Nat)
+/-- the block part of `walk` (`walkCore`: roll-back of the pool, undo loop, apply loop) keeps the invariants of
+`walk_Ledger_chain_full`, in every outcome; the pool is empty afterwards -/
+theorem walkCore_Ledger_chain (e : Env) (s : St) (lh : Int) (dest : Nat) (prune : Bool) (C : List Nat)
     (hpl : ParentLower e) (hgen : ChainLog e {} []) (h : Ledger e s C) (hc : ChainLog e s C)
     (hids : ∀ bi ∈ (undoTodo e s.pointer dest).2, (e.block bi).id = bi)
     (hnd : (blockTxs e (ancestors e (e.blocks.length + 1) dest).reverse).Nodup)
     (hblk : ∀ bi ∈ (undoTodo e s.pointer dest).2, (∀ i ∈ (e.block bi).txs, (e.tx i).id = i) ∧
-      (∀ i ∈ (e.block bi).txs, (e.tx i).coinbase = true → (e.tx i).ins = [] ∧ feeOf (e.tx i).outs = 0))
-    (hskip : SkipsConfirmed e s (blockTxs e (ancestors e (e.blocks.length + 1) dest).reverse)) :
-    ∃ C', Ledger e (walk e s lh dest prune).1 C' ∧ ChainLog e (walk e s lh dest prune).1 C' ∧
-      ((walk e s lh dest prune).2 = true →
+      (∀ i ∈ (e.block bi).txs, (e.tx i).coinbase = true → (e.tx i).ins = [] ∧ feeOf (e.tx i).outs = 0)) :
+    ∃ C', Ledger e (XV.Crash.walkCore e s lh dest prune).1 C' ∧ ChainLog e (XV.Crash.walkCore e s lh dest prune).1 C' ∧
+      ((XV.Crash.walkCore e s lh dest prune).2 = true →
         C' = blockTxs e (ancestors e (e.blocks.length + 1) dest).reverse) := by
   obtain ⟨pre, p1, p2⟩ := undoTodo_paths e s.pointer dest hpl
   have hcur : ancestors e (e.blocks.length + 1) s.pointer = (undoTodo e s.pointer dest).1 ++ pre.reverse := by
@@ -1976,7 +1991,7 @@ theorem walk_Ledger_chain_full (e : Env) (s : St) (lh : Int) (dest : Nat) (prune
   have hC : C = blockTxs e pre ++ blockTxs e (undoTodo e s.pointer dest).1.reverse := by
     unfold ChainLog at hc
     rw [hc, p1, blockTxs_append]
-  rw [walk_shape]
+  unfold XV.Crash.walkCore XV.Crash.rolledBack
   simp only
   -- step 1: roll the pool back
   have hl := h.led
@@ -2023,14 +2038,82 @@ theorem walk_Ledger_chain_full (e : Env) (s : St) (lh : Int) (dest : Nat) (prune
       simp only [hr2, Bool.not_true, Bool.false_eq_true, ↓reduceIte]
       have hC2 := t4 hr2
       rw [hC2, ← p2] at t1 t3
-      -- step 4: re-submit the pool
-      refine ⟨_, readmit_Ledger e lh (repostList e s) _ _ t1 ?_, ?_, fun _ => rfl⟩
-      · intro i hi
-        have hip := repostList_subset e s i hi
-        exact ⟨hl.idEq i (List.mem_append_right _ hip), h.poolNonCoinbase i hip,
-          fun hcf => absurd hcf (hskip.not_confirmed i hi)⟩
-      · unfold ChainLog at t3 ⊢
-        rw [foldl_doTx_pointer]; exact t3
+      exact ⟨_, t1, t3, fun _ => rfl⟩
+
+/-- `walk` with ANY re-admission list `L` taken from the old pool keeps the pair (`Ledger`, `ChainLog`) in every outcome
+(`hre`: a re-submitted transaction that the destination's path confirms has a token input) -/
+theorem walkL_Ledger_chain (e : Env) (s : St) (lh : Int) (dest : Nat) (prune : Bool) (C : List Nat)
+    (hpl : ParentLower e) (hgen : ChainLog e {} []) (h : Ledger e s C) (hc : ChainLog e s C)
+    (hids : ∀ bi ∈ (undoTodo e s.pointer dest).2, (e.block bi).id = bi)
+    (hnd : (blockTxs e (ancestors e (e.blocks.length + 1) dest).reverse).Nodup)
+    (hblk : ∀ bi ∈ (undoTodo e s.pointer dest).2, (∀ i ∈ (e.block bi).txs, (e.tx i).id = i) ∧
+      (∀ i ∈ (e.block bi).txs, (e.tx i).coinbase = true → (e.tx i).ins = [] ∧ feeOf (e.tx i).outs = 0))
+    (L : List Nat) (hL : ∀ i ∈ L, i ∈ s.pool)
+    (hre : ∀ i ∈ L, i ∈ blockTxs e (ancestors e (e.blocks.length + 1) dest).reverse → (e.tx i).ins ≠ []) :
+    ∃ C', Ledger e (if (XV.Crash.walkCore e s lh dest prune).2 = true then
+          (L.foldl (fun st i => (doTx e st lh i).1) (XV.Crash.walkCore e s lh dest prune).1, true)
+        else ((XV.Crash.walkCore e s lh dest prune).1, false)).1 C' ∧
+      ChainLog e (if (XV.Crash.walkCore e s lh dest prune).2 = true then
+          (L.foldl (fun st i => (doTx e st lh i).1) (XV.Crash.walkCore e s lh dest prune).1, true)
+        else ((XV.Crash.walkCore e s lh dest prune).1, false)).1 C' ∧
+      ((if (XV.Crash.walkCore e s lh dest prune).2 = true then
+          (L.foldl (fun st i => (doTx e st lh i).1) (XV.Crash.walkCore e s lh dest prune).1, true)
+        else ((XV.Crash.walkCore e s lh dest prune).1, false)).2 = true →
+        C' = blockTxs e (ancestors e (e.blocks.length + 1) dest).reverse) := by
+  obtain ⟨C', c1, c2, c3⟩ := walkCore_Ledger_chain e s lh dest prune C hpl hgen h hc hids hnd hblk
+  by_cases hok : (XV.Crash.walkCore e s lh dest prune).2 = true
+  · rw [if_pos hok]
+    have hC := c3 hok
+    rw [hC] at c1 c2
+    refine ⟨_, readmit_Ledger e lh L _ _ c1 ?_, ?_, fun _ => rfl⟩
+    · intro i hi
+      exact ⟨h.led.idEq i (List.mem_append_right _ (hL i hi)), h.poolNonCoinbase i (hL i hi), hre i hi⟩
+    · unfold ChainLog at c2 ⊢
+      rw [foldl_doTx_pointer]; exact c2
+  · rw [if_neg hok]
+    exact ⟨C', c1, c2, fun hf => by cases hf⟩
+
+/-- **`walk` keeps the pair (`Ledger`, `ChainLog`) in EVERY outcome** — success, an undo refused at the irreversible
+height, a block of the new branch that fails admission. In the two failing outcomes the node stays at an intermediate
+block (on the old branch above the fork point, at the fork point, or part of the way up the new branch) with an empty
+pool, and the log that explains its tables is the log of the path of that block. On success the log is that of the
+destination's path. Hypotheses as for `walk_Ledger_chain`, with two changes: the blocks to apply are known to the
+environment under their ids (`hids`; it replaces `(e.block dest).id = dest`, and is what puts the pointer where the log
+says after each applied block), and the path of the initial pointer `0` carries no transaction (`hgen`, see
+`ChainLog_genesis`; used when a root block is undone). -/
+theorem walk_Ledger_chain_full (e : Env) (s : St) (lh : Int) (dest : Nat) (prune : Bool) (C : List Nat)
+    (hpl : ParentLower e) (hgen : ChainLog e {} []) (h : Ledger e s C) (hc : ChainLog e s C)
+    (hids : ∀ bi ∈ (undoTodo e s.pointer dest).2, (e.block bi).id = bi)
+    (hnd : (blockTxs e (ancestors e (e.blocks.length + 1) dest).reverse).Nodup)
+    (hblk : ∀ bi ∈ (undoTodo e s.pointer dest).2, (∀ i ∈ (e.block bi).txs, (e.tx i).id = i) ∧
+      (∀ i ∈ (e.block bi).txs, (e.tx i).coinbase = true → (e.tx i).ins = [] ∧ feeOf (e.tx i).outs = 0))
+    (hskip : SkipsConfirmed e s (blockTxs e (ancestors e (e.blocks.length + 1) dest).reverse)) :
+    ∃ C', Ledger e (walk e s lh dest prune).1 C' ∧ ChainLog e (walk e s lh dest prune).1 C' ∧
+      ((walk e s lh dest prune).2 = true →
+        C' = blockTxs e (ancestors e (e.blocks.length + 1) dest).reverse) := by
+  rw [XV.Crash.walk_eq_core]
+  exact walkL_Ledger_chain e s lh dest prune C hpl hgen h hc hids hnd hblk (repostList e s) (repostList_subset e s)
+    (fun i hi hcf => absurd hcf (hskip.not_confirmed i hi))
+
+/-- the same with the skip list supplied for this walk (`e.withSkip l`; the invariants are stated in the fixed environment
+`e` of the history): `l` names every pending transaction that the destination's path confirms -/
+theorem walk_Ledger_chain_full_withSkip (e : Env) (l : List Nat) (s : St) (lh : Int) (dest : Nat) (prune : Bool) (C : List Nat)
+    (hpl : ParentLower e) (hgen : ChainLog e {} []) (h : Ledger e s C) (hc : ChainLog e s C)
+    (hids : ∀ bi ∈ (undoTodo e s.pointer dest).2, (e.block bi).id = bi)
+    (hnd : (blockTxs e (ancestors e (e.blocks.length + 1) dest).reverse).Nodup)
+    (hblk : ∀ bi ∈ (undoTodo e s.pointer dest).2, (∀ i ∈ (e.block bi).txs, (e.tx i).id = i) ∧
+      (∀ i ∈ (e.block bi).txs, (e.tx i).coinbase = true → (e.tx i).ins = [] ∧ feeOf (e.tx i).outs = 0))
+    (hskip : ∀ i ∈ s.pool, i ∈ blockTxs e (ancestors e (e.blocks.length + 1) dest).reverse → i ∈ l) :
+    ∃ C', Ledger e (walk (e.withSkip l) s lh dest prune).1 C' ∧
+      ChainLog e (walk (e.withSkip l) s lh dest prune).1 C' ∧
+      ((walk (e.withSkip l) s lh dest prune).2 = true →
+        C' = blockTxs e (ancestors e (e.blocks.length + 1) dest).reverse) := by
+  rw [XV.Crash.walk_withSkip]
+  apply walkL_Ledger_chain e s lh dest prune C hpl hgen h hc hids hnd hblk _ (fun i hi => (List.mem_filter.mp hi).1)
+  intro i hi hcf
+  obtain ⟨hp, hn⟩ := List.mem_filter.mp hi
+  have : i ∈ l := hskip i hp hcf
+  simp [this] at hn
 
 -- non-vacuity of `walk_Ledger_chain_full`, on the two FAILING outcomes. The tree of `clEnv` with slide window 1 and two more
 -- blocks: 13 = [7 (award)] on 11, and 14 = [6 (award), 2] on 12 — transaction 2 spends an output of transaction 1, which is
@@ -2192,24 +2275,16 @@ theorem todoAll_LedgerAllChain (e : Env) (lh : Int) (hpl : ParentLower e) (dest 
           path_prefix e hpl dest bi (P ++ done) rest (by rw [hpath, hT, List.append_assoc]), List.append_assoc]
       exact ih (done ++ [bi]) st' (by rw [hT, List.append_assoc]; rfl) ⟨t1, k1⟩ t2 hc'
 
-/-- **`walk` keeps the triple (`Ledger`, `LedgerK`, `ChainLog`) in EVERY outcome** — the capstone: the UTXO table, the key
-tables and the pointer are explained by ONE ghost log, the transactions of the blocks on the path root..pointer, followed
-by the pool; after success, after an undo refused at the irreversible height, and after a block of the new branch that
-fails admission (the node then stays at an intermediate block with an empty pool). `walk_Ledger_chain_full` with
-`LedgerAll` for `Ledger`; `hblk` also asks one write per key of the transactions of the blocks to apply. No hypothesis on
-the re-submitted transactions any more (formerly `hre`: a pending transaction that the destination's path confirms has a
-token input OR writes a key): `hskip` — the skip list names every pending transaction the destination's path confirms —
-is what the ledger supplies after the repair of `recoverUnconfirmedTx`, and the re-admitted pool is `repostList e s`. -/
-theorem walk_LedgerAll_chain_full (e : Env) (s : St) (lh : Int) (dest : Nat) (prune : Bool) (C : List Nat)
+/-- the block part of `walk` (`walkCore`) keeps the triple of `walk_LedgerAll_chain_full`, in every outcome -/
+theorem walkCore_LedgerAll_chain (e : Env) (s : St) (lh : Int) (dest : Nat) (prune : Bool) (C : List Nat)
     (hpl : ParentLower e) (hgen : ChainLog e {} []) (h : LedgerAll e s C) (hc : ChainLog e s C)
     (hids : ∀ bi ∈ (undoTodo e s.pointer dest).2, (e.block bi).id = bi)
     (hnd : (blockTxs e (ancestors e (e.blocks.length + 1) dest).reverse).Nodup)
     (hblk : ∀ bi ∈ (undoTodo e s.pointer dest).2, (∀ i ∈ (e.block bi).txs, (e.tx i).id = i) ∧
       (∀ i ∈ (e.block bi).txs, (e.tx i).coinbase = true → (e.tx i).ins = [] ∧ feeOf (e.tx i).outs = 0) ∧
-      (∀ i ∈ (e.block bi).txs, ((e.tx i).kout.map (·.key)).Nodup))
-    (hskip : SkipsConfirmed e s (blockTxs e (ancestors e (e.blocks.length + 1) dest).reverse)) :
-    ∃ C', LedgerAll e (walk e s lh dest prune).1 C' ∧ ChainLog e (walk e s lh dest prune).1 C' ∧
-      ((walk e s lh dest prune).2 = true →
+      (∀ i ∈ (e.block bi).txs, ((e.tx i).kout.map (·.key)).Nodup)) :
+    ∃ C', LedgerAll e (XV.Crash.walkCore e s lh dest prune).1 C' ∧ ChainLog e (XV.Crash.walkCore e s lh dest prune).1 C' ∧
+      ((XV.Crash.walkCore e s lh dest prune).2 = true →
         C' = blockTxs e (ancestors e (e.blocks.length + 1) dest).reverse) := by
   obtain ⟨pre, p1, p2⟩ := undoTodo_paths e s.pointer dest hpl
   have hcur : ancestors e (e.blocks.length + 1) s.pointer = (undoTodo e s.pointer dest).1 ++ pre.reverse := by
@@ -2219,7 +2294,7 @@ theorem walk_LedgerAll_chain_full (e : Env) (s : St) (lh : Int) (dest : Nat) (pr
   have hC : C = blockTxs e pre ++ blockTxs e (undoTodo e s.pointer dest).1.reverse := by
     unfold ChainLog at hc
     rw [hc, p1, blockTxs_append]
-  rw [walk_shape]
+  unfold XV.Crash.walkCore XV.Crash.rolledBack
   simp only
   -- step 1: roll the pool back
   have hl := h.1.led
@@ -2283,14 +2358,89 @@ theorem walk_LedgerAll_chain_full (e : Env) (s : St) (lh : Int) (dest : Nat) (pr
       simp only [hr2, Bool.not_true, Bool.false_eq_true, ↓reduceIte]
       have hC2 := t4 hr2
       rw [hC2, ← p2] at t1 t3
-      -- step 4: re-submit the pool
-      refine ⟨_, readmit_LedgerAll e lh (repostList e s) _ _ t1 ?_, ?_, fun _ => rfl⟩
-      · intro i hi
-        have hip := repostList_subset e s i hi
-        exact ⟨hl.idEq i (List.mem_append_right _ hip), fun hcf => absurd hcf (hskip.not_confirmed i hi),
-          h.1.poolNonCoinbase i hip, (hk.wf i (List.mem_append_right _ hip)).koutNodup⟩
-      · unfold ChainLog at t3 ⊢
-        rw [foldl_doTx_pointer]; exact t3
+      exact ⟨_, t1, t3, fun _ => rfl⟩
+
+/-- `walk` with ANY re-admission list `L` taken from the old pool keeps the triple in every outcome (`hre`: a re-submitted
+transaction that the destination's path confirms has a token input or writes a key) -/
+theorem walkL_LedgerAll_chain (e : Env) (s : St) (lh : Int) (dest : Nat) (prune : Bool) (C : List Nat)
+    (hpl : ParentLower e) (hgen : ChainLog e {} []) (h : LedgerAll e s C) (hc : ChainLog e s C)
+    (hids : ∀ bi ∈ (undoTodo e s.pointer dest).2, (e.block bi).id = bi)
+    (hnd : (blockTxs e (ancestors e (e.blocks.length + 1) dest).reverse).Nodup)
+    (hblk : ∀ bi ∈ (undoTodo e s.pointer dest).2, (∀ i ∈ (e.block bi).txs, (e.tx i).id = i) ∧
+      (∀ i ∈ (e.block bi).txs, (e.tx i).coinbase = true → (e.tx i).ins = [] ∧ feeOf (e.tx i).outs = 0) ∧
+      (∀ i ∈ (e.block bi).txs, ((e.tx i).kout.map (·.key)).Nodup))
+    (L : List Nat) (hL : ∀ i ∈ L, i ∈ s.pool)
+    (hre : ∀ i ∈ L, i ∈ blockTxs e (ancestors e (e.blocks.length + 1) dest).reverse → (e.tx i).ins ≠ [] ∨ (e.tx i).kout ≠ []) :
+    ∃ C', LedgerAll e (if (XV.Crash.walkCore e s lh dest prune).2 = true then
+          (L.foldl (fun st i => (doTx e st lh i).1) (XV.Crash.walkCore e s lh dest prune).1, true)
+        else ((XV.Crash.walkCore e s lh dest prune).1, false)).1 C' ∧
+      ChainLog e (if (XV.Crash.walkCore e s lh dest prune).2 = true then
+          (L.foldl (fun st i => (doTx e st lh i).1) (XV.Crash.walkCore e s lh dest prune).1, true)
+        else ((XV.Crash.walkCore e s lh dest prune).1, false)).1 C' ∧
+      ((if (XV.Crash.walkCore e s lh dest prune).2 = true then
+          (L.foldl (fun st i => (doTx e st lh i).1) (XV.Crash.walkCore e s lh dest prune).1, true)
+        else ((XV.Crash.walkCore e s lh dest prune).1, false)).2 = true →
+        C' = blockTxs e (ancestors e (e.blocks.length + 1) dest).reverse) := by
+  obtain ⟨C', c1, c2, c3⟩ := walkCore_LedgerAll_chain e s lh dest prune C hpl hgen h hc hids hnd hblk
+  by_cases hok : (XV.Crash.walkCore e s lh dest prune).2 = true
+  · rw [if_pos hok]
+    have hC := c3 hok
+    rw [hC] at c1 c2
+    refine ⟨_, readmit_LedgerAll e lh L _ _ c1 ?_, ?_, fun _ => rfl⟩
+    · intro i hi
+      have hip := hL i hi
+      exact ⟨h.1.led.idEq i (List.mem_append_right _ hip), hre i hi, h.1.poolNonCoinbase i hip,
+        (h.2.wf i (List.mem_append_right _ hip)).koutNodup⟩
+    · unfold ChainLog at c2 ⊢
+      rw [foldl_doTx_pointer]; exact c2
+  · rw [if_neg hok]
+    exact ⟨C', c1, c2, fun hf => by cases hf⟩
+
+/-- **`walk` keeps the triple (`Ledger`, `LedgerK`, `ChainLog`) in EVERY outcome** — the capstone: the UTXO table, the key
+tables and the pointer are explained by ONE ghost log, the transactions of the blocks on the path root..pointer, followed
+by the pool; after success, after an undo refused at the irreversible height, and after a block of the new branch that
+fails admission (the node then stays at an intermediate block with an empty pool). `walk_Ledger_chain_full` with
+`LedgerAll` for `Ledger`; `hblk` also asks one write per key of the transactions of the blocks to apply. No hypothesis on
+the re-submitted transactions any more (formerly `hre`: a pending transaction that the destination's path confirms has a
+token input OR writes a key): `hskip` — the skip list names every pending transaction the destination's path confirms —
+is what the ledger supplies after the repair of `recoverUnconfirmedTx`, and the re-admitted pool is `repostList e s`. -/
+theorem walk_LedgerAll_chain_full (e : Env) (s : St) (lh : Int) (dest : Nat) (prune : Bool) (C : List Nat)
+    (hpl : ParentLower e) (hgen : ChainLog e {} []) (h : LedgerAll e s C) (hc : ChainLog e s C)
+    (hids : ∀ bi ∈ (undoTodo e s.pointer dest).2, (e.block bi).id = bi)
+    (hnd : (blockTxs e (ancestors e (e.blocks.length + 1) dest).reverse).Nodup)
+    (hblk : ∀ bi ∈ (undoTodo e s.pointer dest).2, (∀ i ∈ (e.block bi).txs, (e.tx i).id = i) ∧
+      (∀ i ∈ (e.block bi).txs, (e.tx i).coinbase = true → (e.tx i).ins = [] ∧ feeOf (e.tx i).outs = 0) ∧
+      (∀ i ∈ (e.block bi).txs, ((e.tx i).kout.map (·.key)).Nodup))
+    (hskip : SkipsConfirmed e s (blockTxs e (ancestors e (e.blocks.length + 1) dest).reverse)) :
+    ∃ C', LedgerAll e (walk e s lh dest prune).1 C' ∧ ChainLog e (walk e s lh dest prune).1 C' ∧
+      ((walk e s lh dest prune).2 = true →
+        C' = blockTxs e (ancestors e (e.blocks.length + 1) dest).reverse) := by
+  rw [XV.Crash.walk_eq_core]
+  exact walkL_LedgerAll_chain e s lh dest prune C hpl hgen h hc hids hnd hblk (repostList e s) (repostList_subset e s)
+    (fun i hi hcf => absurd hcf (hskip.not_confirmed i hi))
+
+/-- **the capstone with the skip list supplied for this walk** (`e.withSkip l`; the invariants are stated in the fixed
+environment `e` of the history): if `l` names every pending transaction that the destination's path confirms — what the
+ledger supplies after the repair of `recoverUnconfirmedTx` — the walk keeps the triple in every outcome; NOTHING is
+asked of the re-submitted transactions -/
+theorem walk_LedgerAll_chain_full_withSkip (e : Env) (l : List Nat) (s : St) (lh : Int) (dest : Nat) (prune : Bool) (C : List Nat)
+    (hpl : ParentLower e) (hgen : ChainLog e {} []) (h : LedgerAll e s C) (hc : ChainLog e s C)
+    (hids : ∀ bi ∈ (undoTodo e s.pointer dest).2, (e.block bi).id = bi)
+    (hnd : (blockTxs e (ancestors e (e.blocks.length + 1) dest).reverse).Nodup)
+    (hblk : ∀ bi ∈ (undoTodo e s.pointer dest).2, (∀ i ∈ (e.block bi).txs, (e.tx i).id = i) ∧
+      (∀ i ∈ (e.block bi).txs, (e.tx i).coinbase = true → (e.tx i).ins = [] ∧ feeOf (e.tx i).outs = 0) ∧
+      (∀ i ∈ (e.block bi).txs, ((e.tx i).kout.map (·.key)).Nodup))
+    (hskip : ∀ i ∈ s.pool, i ∈ blockTxs e (ancestors e (e.blocks.length + 1) dest).reverse → i ∈ l) :
+    ∃ C', LedgerAll e (walk (e.withSkip l) s lh dest prune).1 C' ∧
+      ChainLog e (walk (e.withSkip l) s lh dest prune).1 C' ∧
+      ((walk (e.withSkip l) s lh dest prune).2 = true →
+        C' = blockTxs e (ancestors e (e.blocks.length + 1) dest).reverse) := by
+  rw [XV.Crash.walk_withSkip]
+  apply walkL_LedgerAll_chain e s lh dest prune C hpl hgen h hc hids hnd hblk _ (fun i hi => (List.mem_filter.mp hi).1)
+  intro i hi hcf
+  obtain ⟨hp, hn⟩ := List.mem_filter.mp hi
+  have : i ∈ l := hskip i hp hcf
+  simp [this] at hn
 
 /-- the triple holds at the initial state, for the empty log (block id 0 not registered, see `ChainLog_genesis`) -/
 theorem LedgerAll_chain_genesis (e : Env) (h0 : (e.block 0).pre = none) (h1 : (e.block 0).txs = []) :
